@@ -14,6 +14,7 @@ package modbus
 //@   ensures [C19] err == nil ==> len(res0) == int(p.Data[0]/2) && 1+2*len(res0) <= len(p.Data)
 //@   ensures [C19] err == nil ==> forall i int :: 0 <= i && i < len(res0) ==> res0[i] == be16(p.Data, 1+2*i)
 //@   ensures [C19] err != nil ==> len(res0) == 0
+//@   ensures [C19] len(p.Data) >= 2 && (p.FunctionCode == FuncCodeReadHoldingRegisters || p.FunctionCode == FuncCodeReadInputRegisters) && len(p.Data) >= 1 + 2*int(p.Data[0]/2) ==> err == nil
 //@   loop 1:
 //@     invariant 0 <= i && i <= int(count)
 //@     invariant len(ret) == int(count) && isfresh(ret)
@@ -34,9 +35,11 @@ package modbus
 
 //@ func PutUint16Array
 //@   props C19
-//@   mode bv
+//@   fresh
 //@   ensures [C19] len(result) == 2*len(value)
 //@   ensures [C19] forall k int :: 0 <= k && k < len(value) ==> be16(result, 2*k) == value[k]
+//@   ensures [C19] len(value) >= 1 ==> be16(result, 0) == value[0]
+//@   ensures [C19] len(value) >= 2 ==> be16(result, 2) == value[1]
 //@   loop 1:
 //@     invariant -1 <= rangeindex && rangeindex < len(value) || rangeindex == -1
 //@     invariant len(data) == 2*len(value) && isfresh(data)
@@ -46,7 +49,6 @@ package modbus
 
 //@ func Uint16Array
 //@   props C19
-//@   mode bv
 //@   ensures [C19] len(result) == len(data)/2
 //@   ensures [C19] forall k int :: 0 <= k && k < len(result) ==> result[k] == be16(data, 2*k)
 //@   loop 1:
@@ -411,3 +413,210 @@ package modbus
 //@     invariant forall g int :: (g < int(address) || g >= int(address)+i) ==> regVal(RG(regs), g) == old(regVal(RG(regs), g))
 //@     modifies RG(regs).regs
 //@     decreases int(quantity) - i
+
+// ---- crc.go, rtu.go, tcp.go: framing (C19) -------------------------------------
+
+//@ seq func crcOf(b []byte) uint16
+
+//@ func RtuCrc
+//@   props C19
+//@   mode bv
+//@   assume-ensures result == crcOf(buf)
+//@   loop 1:
+//@     invariant -1 <= rangeindex && rangeindex < len(buf) || rangeindex == -1
+//@     decreases len(buf) - rangeindex
+//@   loop 2:
+//@     invariant 0 <= i && i <= 8
+//@     decreases i
+
+//@ spec func crcOK(packet []byte) bool = len(packet) >= 4 && crcOf(packet[:len(packet)-2]) == be16(packet, len(packet)-2)
+
+//@ func CheckRtuCrc
+//@   props C19
+//@   ensures [C19] res0 == nil <==> crcOK(packet)
+
+//@ func (*RTU).Encode
+//@   props C19
+//@   ensures [C19] res1 == nil && len(res0) == len(pdu.Data)+4 && isfresh(res0)
+//@   ensures [C19] res0[0] == id && res0[1] == byte(pdu.FunctionCode)
+//@   ensures [C19] forall k int :: 0 <= k && k < len(pdu.Data) ==> res0[2+k] == pdu.Data[k]
+//@   ensures [C19] crcOK(res0)
+
+//@ func (*RTU).Decode
+//@   props C19
+//@   ensures [C19] res2 == nil <==> crcOK(packet)
+//@   ensures [C19] res2 == nil ==> res0 == packet[0] && res1.FunctionCode == FunctionCode(packet[1]) && sameSlice(res1.Data, packet[2:len(packet)-2])
+
+//@ func (*TCP).Encode
+//@   props C19
+//@   requires t != nil
+//@   modifies t
+//@   ensures [C19] res1 == nil && len(res0) == len(pdu.Data)+8 && isfresh(res0)
+//@   ensures [C19] t.txID == ite(old(t.clientServer) == TransportClient, old(t.txID)+1, old(t.txID)) && t.clientServer == old(t.clientServer) && t.sock == old(t.sock) && t.timeout == old(t.timeout)
+//@   ensures [C19] be16(res0, 0) == t.txID && be16(res0, 2) == 0 && be16(res0, 4) == uint16(len(pdu.Data)+2) && res0[6] == id && res0[7] == byte(pdu.FunctionCode)
+//@   ensures [C19] forall k int :: 0 <= k && k < len(pdu.Data) ==> res0[8+k] == pdu.Data[k]
+
+//@ spec func tcpAccepts(t *TCP, packet []byte) bool = len(packet) >= 9 && !(t.clientServer == TransportClient && be16(packet, 0) != t.txID)
+
+//@ func (*TCP).Decode
+//@   props C19
+//@   requires t != nil
+//@   modifies t
+//@   ensures [C19] res2 == nil <==> old(tcpAccepts(t, packet))
+//@   ensures [C19] res2 == nil ==> res0 == packet[6] && res1.FunctionCode == FunctionCode(packet[7]) && sameSlice(res1.Data, packet[8:])
+//@   ensures [C19] t.clientServer == old(t.clientServer) && t.sock == old(t.sock) && t.timeout == old(t.timeout)
+//@   ensures [C19] t.txID == ite(res2 == nil && old(t.clientServer) == TransportServer, be16(packet, 0), old(t.txID))
+
+//@ func verifRtuRoundTrip
+//@   props C19
+//@   requires len(pdu.Data) <= 252
+//@   ensures [C19] rtu-roundtrip: res2 == nil && res0 == id && res1.FunctionCode == pdu.FunctionCode && res1.Data == pdu.Data
+
+//@ func verifTCPRoundTrip
+//@   props C19
+//@   requires cl != nil && srv != nil && cl != srv && cl.clientServer == TransportClient && srv.clientServer == TransportServer && 1 <= len(pdu.Data) && len(pdu.Data) <= 252
+//@   modifies cl, srv
+//@   ensures [C19] tcp-roundtrip: res2 == nil && res0 == id && res1.FunctionCode == pdu.FunctionCode && res1.Data == pdu.Data && srv.txID == cl.txID
+
+// ---- pdu.go: request builders and response decoders (C19) ----------------------
+
+//@ spec func isReq(r PDU, fc FunctionCode, a uint16, b uint16) bool = r.FunctionCode == fc && len(r.Data) == 4 && be16(r.Data, 0) == a && be16(r.Data, 2) == b
+
+//@ func ReadDiscreteInputs
+//@   props C19
+//@   fresh result.Data
+//@   ensures [C19] isReq(result, FuncCodeReadDiscreteInputs, address, count)
+//@ func ReadCoils
+//@   props C19
+//@   fresh result.Data
+//@   ensures [C19] isReq(result, FuncCodeReadCoils, address, count)
+//@ func WriteSingleCoil
+//@   props C19
+//@   fresh result.Data
+//@   ensures [C19] isReq(result, FuncCodeWriteSingleCoil, address, ite(v, 0xFF00, 0))
+//@ func WriteSingleReg
+//@   props C19
+//@   fresh result.Data
+//@   ensures [C19] isReq(result, FuncCodeWriteSingleRegister, address, value)
+//@ func ReadHoldingRegs
+//@   props C19
+//@   fresh result.Data
+//@   ensures [C19] isReq(result, FuncCodeReadHoldingRegisters, address, count)
+//@ func ReadInputRegs
+//@   props C19
+//@   fresh result.Data
+//@   ensures [C19] isReq(result, FuncCodeReadInputRegisters, address, count)
+
+//@ func (*PDU).RespReadBits
+//@   props C19
+//@   requires p != nil
+//@   ensures [C19] res1 == nil ==> len(res0) == int(p.Data[0])
+//@   loop 1:
+//@     invariant 0 <= int(i) && i <= count && len(ret) == int(count) && isfresh(ret)
+//@     invariant byteIndex == int(i)/8 && int(bitIndex) == int(i)%8 && len(p.Data) >= 1 + (int(count)+7)/8
+//@     modifies ret
+//@     decreases int(count) - int(i)
+
+//@ func (*PDU).RespReadBitsCount
+//@   props C19
+//@   requires p != nil
+//@   ensures [C19] res1 == nil ==> len(res0) == int(count) && int(p.Data[0]) == fdiv(int(count)+7, 8) && len(p.Data) == 1 + fdiv(int(count)+7, 8) && (p.FunctionCode == FuncCodeReadCoils || p.FunctionCode == FuncCodeReadDiscreteInputs)
+//@   ensures [C19] res1 == nil ==> (forall j int :: 0 <= j && j < int(count) ==> res0[j] == bit8(p.Data[1+fdiv(j, 8)], fmod(j, 8)))
+//@   ensures [C19] (p.FunctionCode == FuncCodeReadCoils || p.FunctionCode == FuncCodeReadDiscreteInputs) && len(p.Data) == 1 + fdiv(int(count)+7, 8) && int(p.Data[0]) == fdiv(int(count)+7, 8) ==> res1 == nil
+//@   loop 1:
+//@     invariant 0 <= i && i <= int(count) && len(ret) == int(count) && isfresh(ret) && len(p.Data) == 1 + fdiv(int(count)+7, 8)
+//@     invariant forall j int :: 0 <= j && j < i ==> ret[j] == bit8(p.Data[1+fdiv(j, 8)], fmod(j, 8))
+//@     modifies ret
+//@     decreases int(count) - i
+
+// ---- client.go (C19) -----------------------------------------------------------
+// The transport is an interface; its contract is the environment assumption of the
+// client: Read is handed a buffer that can hold a maximal frame (260 bytes: "port must
+// return an entire packet for each Read"), behaves like an io.Reader (0 <= n <= len(p)), and
+// lastRx names the PDU that Decode returned. What the transport delivers is related
+// to the server by verifRtuRoundTrip / verifTCPRoundTrip and the verifServe* lemmas.
+
+//@ model func lastRx(t Transport) PDU
+
+//@ extern (Transport).Encode(self, id, pdu)
+//@ extern (Transport).Write(self, p)
+//@ extern (Transport).Read(self, p)
+//@   requires len(p) >= 260
+//@   modifies p
+//@   ensures res1 == nil ==> 0 <= res0 && res0 <= len(p)
+//@ extern (Transport).Decode(self, packet)
+//@   modifies self
+//@   ensures res2 == nil ==> res1 == lastRx(self)
+
+//@ func (*Client).ReadCoils
+//@   props C19
+//@   requires c != nil
+//@   modifies c.transport
+//@   ensures [C19] res1 == nil ==> len(res0) == int(count) && lastRx(c.transport).FunctionCode == FuncCodeReadCoils && len(lastRx(c.transport).Data) == 1 + fdiv(int(count)+7, 8)
+//@   ensures [C19] res1 == nil ==> (forall j int :: 0 <= j && j < int(count) ==> res0[j] == bit8(lastRx(c.transport).Data[1+fdiv(j, 8)], fmod(j, 8)))
+
+//@ func (*Client).ReadDiscreteInputs
+//@   props C19
+//@   requires c != nil
+//@   modifies c.transport
+//@   ensures [C19] res1 == nil ==> len(res0) == int(count) && lastRx(c.transport).FunctionCode == FuncCodeReadDiscreteInputs && len(lastRx(c.transport).Data) == 1 + fdiv(int(count)+7, 8)
+//@   ensures [C19] res1 == nil ==> (forall j int :: 0 <= j && j < int(count) ==> res0[j] == bit8(lastRx(c.transport).Data[1+fdiv(j, 8)], fmod(j, 8)))
+
+//@ func (*Client).ReadHoldingRegs
+//@   props C19
+//@   requires c != nil
+//@   modifies c.transport
+//@   ensures [C19] res1 == nil ==> len(res0) == int(count) && lastRx(c.transport).FunctionCode == FuncCodeReadHoldingRegisters
+//@   ensures [C19] res1 == nil ==> (forall j int :: 0 <= j && j < int(count) ==> res0[j] == be16(lastRx(c.transport).Data, 1+2*j))
+
+//@ func (*Client).ReadInputRegs
+//@   props C19
+//@   requires c != nil
+//@   modifies c.transport
+//@   ensures [C19] res1 == nil ==> len(res0) == int(count) && lastRx(c.transport).FunctionCode == FuncCodeReadInputRegisters
+//@   ensures [C19] res1 == nil ==> (forall j int :: 0 <= j && j < int(count) ==> res0[j] == be16(lastRx(c.transport).Data, 1+2*j))
+
+//@ func (*Client).WriteSingleCoil
+//@   props C19
+//@   requires c != nil
+//@   modifies c.transport
+//@   ensures [C19] res0 == nil ==> isReq(lastRx(c.transport), FuncCodeWriteSingleCoil, coil, ite(v, 0xFF00, 0))
+
+//@ func (*Client).WriteSingleReg
+//@   props C19
+//@   requires c != nil
+//@   modifies c.transport
+//@   ensures [C19] res0 == nil ==> isReq(lastRx(c.transport), FuncCodeWriteSingleRegister, reg, value)
+
+// ---- end-to-end lemmas (zz_verif_lemmas.go) -------------------------------------
+
+//@ func verifServeReadRegs
+//@   props C19
+//@   requires typeIs(regs, *Regs) && RG(regs) != nil
+//@   modifies RG(regs).regs
+//@   ensures [C19] serve-readregs-values: res1 == nil ==> len(res0) == int(count) && (forall g int :: int(reg) <= g && g < int(reg)+int(count) ==> res0[g-int(reg)] == regVal(RG(regs), g))
+//@   ensures [C19] serve-readregs-succeeds: 1 <= count && count <= 125 && old(regsPresent(RG(regs), int(reg), int(count))) ==> res1 == nil
+//@   ensures [C19] serve-readregs-frame: unchanged(RG(regs))
+
+//@ func verifServeReadCoils
+//@   props C19
+//@   requires typeIs(regs, *Regs) && RG(regs) != nil
+//@   modifies RG(regs).regs
+//@   ensures [C19] serve-readcoils-values: res1 == nil ==> len(res0) == int(count) && (forall c int :: int(coil) <= c && c < int(coil)+int(count) ==> res0[c-int(coil)] == coilVal(RG(regs), c))
+//@   ensures [C19] serve-readcoils-succeeds: 1 <= count && count <= 2000 && old(coilsPresent(RG(regs), int(coil), int(count))) ==> res1 == nil
+//@   ensures [C19] serve-readcoils-frame: unchanged(RG(regs))
+
+//@ func verifServeWriteReg
+//@   props C19
+//@   requires typeIs(regs, *Regs) && RG(regs) != nil
+//@   modifies RG(regs).regs
+//@   ensures [C19] serve-writereg-effect: res0 == nil ==> regVal(RG(regs), int(reg)) == value && valsSameExcept(RG(regs), int(reg)) && regsFrame(RG(regs))
+//@   ensures [C19] serve-writereg-succeeds: old(hasReg(RG(regs), int(reg))) && old(regOK(RG(regs), int(reg), value)) ==> res0 == nil
+//@   ensures [C19] serve-writereg-refused: res0 != nil ==> unchanged(RG(regs))
+
+//@ func verifServeWriteCoil
+//@   props C19
+//@   requires typeIs(regs, *Regs) && RG(regs) != nil
+//@   modifies RG(regs).regs
+//@   ensures [C19] serve-writecoil-effect: res0 == nil ==> coilVal(RG(regs), int(coil)) == v && coilsSameExcept(RG(regs), int(coil)) && coilsFrame(RG(regs))
+//@   ensures [C19] serve-writecoil-refused: res0 != nil ==> unchanged(RG(regs))
